@@ -365,8 +365,55 @@ func ruleGlobalGenerate(c *Ctx) {
 	}, []Ev{guardCall("precheckLogical", true, callMatcher(precheck))}, all, "an estimate is returned for use only on the true edge of precheckLogical")
 	// precheckLogical rejects differentiated logical >= maxLogical
 	maxLogical, _ := constIntObj(P.obj(tso, "maxLogical"))
-	diffL := F(P.Method(tso, "timestampOracle", "differentiateLogical"))
+	isDiff, _ := differentiated(P)
 	pre := P.Method(tso, "GlobalTSOAllocator", "precheckLogical")
 	c.atomRejects(rule, pre, "differentiateLogical(logical) >= maxLogical ⇒ false",
-		relMatcher(">=", resultOfCall(diffL), isConstInt(maxLogical)), boolReturn(false))
+		relMatcher(">=", isDiff, isConstInt(maxLogical)), boolReturn(false))
+}
+
+// differentiated: "the logical part made unique by the dc suffix", raw<<bits + suffix,
+// whether computed by the helper method of the reference tree or written in
+// place (a helper turned into a plain function is expanded by inline.go).
+// widthOf gives the shift width of such a value.
+func differentiated(P *Prog) (isDiff valPred, widthOf func(v ssa.Value) ssa.Value) {
+	const tso = "server/tso"
+	helper := P.methodOpt(tso, "timestampOracle", "differentiateLogical")
+	if helper == nil {
+		helper = P.renamedFunc(tso, "timestampOracle", "differentiateLogical")
+	}
+	shape := func(v ssa.Value) *ssa.BinOp {
+		add, ok := strip(v).(*ssa.BinOp)
+		if !ok || add.Op != token.ADD {
+			return nil
+		}
+		sh, ok := strip(add.X).(*ssa.BinOp)
+		if !ok || sh.Op != token.SHL {
+			return nil
+		}
+		return sh
+	}
+	isDiff = func(v ssa.Value) bool {
+		if helper != nil && valueIsCallTo(v, F(helper)) {
+			return true
+		}
+		return shape(v) != nil
+	}
+	widthOf = func(v ssa.Value) ssa.Value {
+		if helper != nil {
+			if cl, _ := callOf(v); cl != nil && F(helper).Match(cl.Common()) {
+				if a := callArgs(cl.Common()); len(a) == 2 {
+					return a[1]
+				}
+			}
+		}
+		if sh := shape(v); sh != nil {
+			w := sh.Y
+			if cv, ok := w.(*ssa.Convert); ok { // shift counts are converted to an unsigned type by the compiler front end
+				w = cv.X
+			}
+			return w
+		}
+		return nil
+	}
+	return
 }
